@@ -374,6 +374,14 @@ func BoundaryDocs() []Case {
 		f.PREF64 = []PREF64St{{}}
 		add("pref64.prefix/absent", f)
 	}
+	// every prefix length 0…128 (canonical), so that exactly the NAT64 sizes are accepted
+	for bits := 0; bits <= 128; bits++ {
+		a := netip.MustParseAddr("2001:db8:aaaa:bbbb:cccc:dddd:eeee:ffff")
+		pf, _ := a.Prefix(bits)
+		f := baseIface()
+		f.PREF64 = []PREF64St{{Prefix: MkCIDR(pf.String())}}
+		add(fmt.Sprintf("pref64.length/%d", bits), f)
+	}
 	// structure
 	for _, wt := range []string{"hop_limit", "mtu", "managed", "max_interval", "names", "hop_limit_float"} {
 		f := baseIface()
